@@ -37,6 +37,12 @@ def register(M):
             return [it for _, it in v.items]
         if isinstance(v, Adt) and T.type_name_hint(v.ty)[0] == 'Option':
             return [M.payload(ex, v)] if M.is_some(ex, v) else []
+        if isinstance(v, Adt) and T.type_name_hint(v.ty)[0] == 'Either':
+            # `Either<L, R>` of two iterators is the iterator of whichever side it holds
+            d = conc(z3.simplify(M.discr(ex, v)))
+            if d is None:
+                d = 0 if ex.branch(M.discr(ex, v) == bv(0)) else 1
+            return seq_of(ex, ex.field_of(v, d, 0, '?'), what)
         raise Inconclusive('%s: iteration over %r' % (what, v))
 
     M.seq_of = seq_of
@@ -296,7 +302,7 @@ def register(M):
         raise Inconclusive('vec![..] lowering not recognised: %r' % (v,))
 
     # ---------------------------------------------------------------- Vec
-    @reg('Vec::new')
+    @reg('Vec::new', 'Vec::with_capacity')
     def _(ex, info, a, dty):
         return Obj('vec', items=(), ty=dty)
 
